@@ -1,5 +1,6 @@
 import Postcard.Props.C05
 import Postcard.Props.C05Framed
+import Postcard.Props.C05Collect
 -- property theorems of C05: every one must depend only on propext / Classical.choice / Quot.sound
 #print axioms Postcard.slice_feed_fits
 #print axioms Postcard.slice_feed_overflow
@@ -27,3 +28,10 @@ import Postcard.Props.C05Framed
 #print axioms Postcard.to_hvec_cobs_within_capacity
 #print axioms Postcard.to_slice_cobs_size_bounds
 #print axioms Postcard.framed_fixed_never_panic
+#print axioms Postcard.collect_alloc
+#print axioms Postcard.collect_slice_threshold
+#print axioms Postcard.collect_slice_buffer
+#print axioms Postcard.collect_hvec_threshold
+#print axioms Postcard.collect_hvec_within_capacity
+#print axioms Postcard.collect_never_ok_truncated
+#print axioms Postcard.collect_pieces_irrelevant
